@@ -587,3 +587,47 @@ Lemma uri_optlist_old_start_loses_option :
   uri_path_into_optlist_g true (@uri_start_first_only opt) [46; 46; 47; 97] 11
                           [(3, [104]); (7, [112])] = UOk [(3, [104]); (11, [97])].
 Proof. reflexivity. Qed.
+
+(* ---- libcoap's dot resolution against RFC 3986 5.2.4 taken literally ---- *)
+Lemma uri_ends_in_dot_cons d x t : uri_ends_in_dot (d :: x :: t) = uri_ends_in_dot (x :: t).
+Proof.
+  unfold uri_ends_in_dot. cbn [rev].
+  destruct (rev t ++ [x]) as [|a l] eqn:E; [destruct (rev t); discriminate|reflexivity].
+Qed.
+
+Lemma uri_rfc_resolve_same_gen : forall ds stack,
+  uri_ends_in_dot ds = false -> uri_rfc_resolve ds stack = uri_resolve ds stack.
+Proof.
+  induction ds as [|d t IH]; intros stack H; [reflexivity|].
+  destruct t as [|x t].
+  - unfold uri_ends_in_dot in H. cbn [rev app] in H. cbn [uri_rfc_resolve uri_resolve].
+    apply orb_false_iff in H. destruct H as [-> ->]. reflexivity.
+  - rewrite uri_ends_in_dot_cons in H.
+    cbn [uri_rfc_resolve uri_resolve].
+    destruct (uri_is_dot d); [apply IH; exact H|].
+    destruct (uri_is_dotdot d); apply IH; exact H.
+Qed.
+
+Lemma uri_rfc_resolve_trailing_gen : forall ds stack,
+  uri_ends_in_dot ds = true -> uri_rfc_resolve ds stack = [] :: uri_resolve ds stack.
+Proof.
+  induction ds as [|d t IH]; intros stack H; [discriminate|].
+  destruct t as [|x t].
+  - unfold uri_ends_in_dot in H. cbn [rev app] in H. cbn [uri_rfc_resolve uri_resolve].
+    destruct (uri_is_dot d); [reflexivity|]. cbn [orb] in H. rewrite H. reflexivity.
+  - rewrite uri_ends_in_dot_cons in H.
+    cbn [uri_rfc_resolve uri_resolve].
+    destruct (uri_is_dot d); [apply IH; exact H|].
+    destruct (uri_is_dotdot d); apply IH; exact H.
+Qed.
+
+Lemma uri_rfc_resolve_same ds :
+  uri_ends_in_dot ds = false -> uri_rfc_resolve ds [] = uri_resolve ds [].
+Proof. apply uri_rfc_resolve_same_gen. Qed.
+
+Lemma uri_rfc_resolve_trailing ds :
+  uri_ends_in_dot ds = true -> uri_rfc_resolve ds [] = [] :: uri_resolve ds [].
+Proof. apply uri_rfc_resolve_trailing_gen. Qed.
+
+Lemma uri_dots_table seg rest : uri_dots (seg ++ rest) (len seg) = UOk (uri_dotkind_raw seg).
+Proof. rewrite uri_dots_is, uri_dots_p_table. reflexivity. Qed.
